@@ -143,6 +143,24 @@ func seqCase(c *core.Ctx, r *core.Rand, i int) {
 			b = wire.Gen(t)
 			c.Count("scalar_messages", 1)
 		}
+		if r.P(1, 12) {
+			// a correctly delimited item that cannot be decoded (invalid type byte at the top, or inside a structure):
+			// its Recv fails, but it occupies exactly its own bytes and the messages behind it are still delivered
+			b = append([]byte{}, b...)
+			ty := []byte{0x00, 0x0B, 0x7F, 0xFF}[r.Intn(4)]
+			if len(b) >= 24 && b[3] == 1 && r.Bool() {
+				b[8+3] = ty // type byte of the first child
+			} else if len(b) > 8 {
+				b[3] = ty // type byte of the item itself (the announced length stays)
+			} else {
+				b[3] = 1 // an 8-byte item: an empty structure is decodable; leave it
+				ty = 1
+			}
+			if ty != 1 {
+				t = wire.Node{} // tag 0 marks "undecodable frame"
+				c.Count("undecodable_frames_in_sequences", 1)
+			}
+		}
 		trees = append(trees, t)
 		stream = append(stream, b...)
 		bounds = append(bounds, len(stream))
@@ -196,6 +214,17 @@ func run(c *core.Ctx, rw io.ReadWriteCloser, ch *chunker, trees []wire.Node, bou
 			return
 		}
 		c.Count("recvs", 1)
+		if trees[j].Tag == 0 && trees[j].Type == 0 {
+			if err == nil {
+				c.Violation("C07:undecodable-frame-accepted", fmt.Sprintf("Recv %d returns a value for a frame with an invalid type byte (%s)", j+1, label), nil)
+				return
+			}
+			if ch.handed != bounds[j] {
+				c.Violation("C07:consumed-wrong-amount:undecodable-frame", fmt.Sprintf("after the failed Recv of undecodable frame %d the receiver has consumed %d bytes, the frames so far are %d bytes long (%s): the following messages are lost or garbled", j+1, ch.handed, bounds[j], label), nil)
+				return
+			}
+			continue
+		}
 		if err != nil {
 			c.Violation("C07:message-lost:"+segClass(sname), fmt.Sprintf("Recv %d of %d returns %v although the whole message was delivered (%s)", j+1, len(trees), err, label), nil)
 			return
@@ -436,9 +465,9 @@ func Spec() *core.Spec {
 		Level: "fault_enumeration",
 		Rule: "sequences of 1-6 generic messages (sizes 16 B .. 9 KB around the 512-byte initial buffer, now and then up to 1 MiB) x segmentations {1-byte reads, fixed 2..9, random, one read, cuts exactly at / one byte around every message boundary} with byte accounting after every Recv; " +
 			"truncation at EVERY byte offset of messages up to 2 KB behind a complete message; announced lengths {max-16 .. max+8, 2*max, 2^31, 2^32-8, 2^32-1} for max in {64 KiB, 1 MiB} with consumed-byte, requested-size and TotalAlloc monitors; " +
-			"the last chunk delivered together with io.EOF; byte-wise delivery against a real server connection and a real client connection. every fifth item a bare padded scalar; distinct = distinct (segmentation, boundaries) / (size, offset class) combinations",
+			"the last chunk delivered together with io.EOF; byte-wise delivery against a real server connection and a real client connection. every fifth item a bare padded scalar; one item in twelve a correctly delimited frame with an invalid type byte (Recv fails, consumes exactly the frame, later messages intact); distinct = distinct (segmentation, boundaries) / (size, offset class) combinations",
 		Assumptions: []string{"messages are compared as trees read back by the harness from the generic value", "alloc monitor: runtime.MemStats.TotalAlloc delta around a single-goroutine call, threshold 256 KiB"},
-		Required:    []string{"sequences", "recvs", "scalar_messages", "truncations", "limit_cases.over", "limit_cases.within", "eof_with_data_cases", "e2e_server_messages", "e2e_client_messages", "segmentation.1-byte", "segmentation.one-read"},
+		Required:    []string{"sequences", "recvs", "scalar_messages", "undecodable_frames_in_sequences", "truncations", "limit_cases.over", "limit_cases.within", "eof_with_data_cases", "e2e_server_messages", "e2e_client_messages", "segmentation.1-byte", "segmentation.one-read"},
 		Families: []core.Family{
 			{Name: "sequences", N: nOf(20000, 800000), Run: seqCase},
 			{Name: "truncation", Exhaustive: true, N: nOf(8*6, 8*200), Run: truncCase},
